@@ -1200,7 +1200,8 @@ reg(Op("empty_like", 1, lambda a: True, _noparams, lambda xp, a, p: xp.empty_lik
 
 # qr / svd: validity predicates
 def _qr_pred(a):
-    return a.ndim == 2 and dn(a) == "float64" and a.shape[0] >= a.shape[1] >= 1
+    # NumPy's own svd/qr reject or diverge on non-finite input: outside the domain
+    return a.ndim == 2 and dn(a) == "float64" and a.shape[0] >= a.shape[1] >= 1 and bool(np.all(np.isfinite(a)))
 
 
 reg(Op("qr", 1, _qr_pred, _noparams, lambda xp, a, p: tuple(xp.linalg.qr(a[0])), lambda v, p: tuple(np.linalg.qr(v[0])), "qr", ("linalg", "multi-output"), 1))
